@@ -170,6 +170,18 @@ CHECKS = {
        "reference applies IQ inversion and errata 2.3 at SetRx/SetTx time): those registers are compared against the datasheet values through the model, not against the reference. "
        "Repaired while building: SX127x Frf was truncated instead of rounded (one step below the reference for about half of all frequencies).",
   tech="machine-checked proof in Coq (command / register encodings = datasheet formats for all parameters) + translator-regenerated PHY tables + three-way pin-level correspondence (model, driver, Semtech reference driver)", ref="6 C13"),
+ "C14": dict(
+  text="Coq theorems (so far) C14_wrong_mode_refused_without_commanding: for every radio kind, every emulated chip state and every accumulated trace, "
+       "tx / start_rx / rx_switch_channel / complete_rx / rx / get_rx_result / cad invoked in the wrong mode return InvalidRadioMode, leave the chip and the "
+       "driver's fields unchanged and add nothing to the pin-level trace. The other three clauses (no command to a sleeping chip before the wake-up; "
+       "everything reprogrammed after cold sleep / reset before the next TX/RX starts; failed operations end in standby with the driver knowing) are "
+       "judged on every run by a chip-side monitor (Spec/ChipMon.v in Coq and, independently, vlib/phymon.py; compared with each other on the real traces) "
+       "over the pin-level traces of the real drivers, and the Coq model of the LoRa layer + both drivers + the LoRaWAN adapter is compared with the "
+       "real code on the same histories: 21 contexts x all operations x interrupt outcomes, a fault at every pin event and a never-completing wait at every "
+       "await_irq, all operation pairs (thorough: triples), random histories, adapter pairs; SX1261/SX1262/STM32WL/SX1276/SX1272 boards.",
+  note=COMMON_NOTE + "PARTIAL: theorems exist for clause 1 only at this commit; clauses 2-4 are decided by the monitor oracle on generated histories, which is a test and not a proof. "
+       "The chip's own behaviour (mode changes on commands and interrupts, what sleep and reset lose) is the datasheet reading written in Spec/ChipMon.v (trusted).",
+  tech="machine-checked proof in Coq (clause 1) + model/implementation correspondence on API histories with faults and cancellations + chip-side monitor oracle (clauses 2-4, partial)", ref="6 C14"),
  "C15": dict(
   text="Coq theorems: every driver's LDRO decision and the bit programmed into the chip equal the airtime calculator's, and that "
        "decision is 'on' exactly when 2^SF*10^6 >= 16384*BW (exact arithmetic) for all SF 5..12 x all 10 bandwidths. The models are "
